@@ -114,6 +114,25 @@ Invalid(cl) == cl \in {"undefined", "boundary", "outside"}
 DroppedSeqs(est, a) == {s \in Seqs : \E t \in Seqs \ {s} :
                            Invalid(EstClass(est, a, IF s < t THEN s ELSE t, IF s < t THEN t ELSE s))}
 
+(* ---- scale-freeness ---------------------------------------------------------------------- *)
+(* Every estimator is a function of the count matrix alone, and of its PROPORTIONS only:     *)
+(* multiplying the whole count matrix by k (the same alignment repeated k times, a genome    *)
+(* scale alignment of the same composition) changes neither the class nor, for a defined     *)
+(* pair, the value.  The classes restated on a count matrix c:                                *)
+CTotal(c) == SumF(Canon, [x \in Canon |-> SumF(Canon, c[x])])
+CDiff(c) == CTotal(c) - SumF(Canon, [x \in Canon |-> c[x][x]])
+ClassC(est, c) ==
+    LET n == CTotal(c) IN
+    IF n = 0 THEN "undefined"
+    ELSE CASE est = "pdist" -> "defined"
+           [] est = "jc69"  -> Classify(<<3 * n - 4 * CDiff(c)>>)
+           [] est = "tn93"  -> LET t == TNNums(c, n)
+                               IN IF \E x \in Canon : t.s[x] = 0 THEN "degenerate" ELSE Classify(t.nums)
+           [] est = "det"   -> IF \E x \in Canon : c[x][x] = 0 THEN "degenerate"
+                               ELSE Classify(<<Det4(CountSeq(c))>>)
+Scaled(c, k) == [x \in Canon |-> [y \in Canon |-> k * c[x][y]]]
+ScaleKs == {2, 3}
+
 (* what every estimator is a function of *)
 Stat(a, i, j) == [cnt |-> Count(a, i, j), total |-> Total(a, i, j), diff |-> Diff(a, i, j)]
 Direct(a) == [p \in {q \in Seqs \X Seqs : q[1] < q[2]} |-> Count(a, p[1], p[2])]   \* total, diff, p follow from it
@@ -264,6 +283,16 @@ Symmetric == \A i, j \in Seqs : i <= j =>
                    IN \A x, y \in Canon : cij[x][y] = cji[y][x]
 
 ZeroDiagonal == \A i \in Seqs : Diff(aln, i, i) = 0
+
+(* the class and the exact proportion do not depend on the scale of the count matrix *)
+ScaleInvariant ==
+    \A i, j \in Seqs : i < j =>
+        LET c == Count(aln, i, j) IN
+        \A est \in Estimators :
+            /\ ClassC(est, c) = EstClass(est, aln, i, j)
+            /\ \A k \in ScaleKs :
+                  /\ ClassC(est, Scaled(c, k)) = ClassC(est, c)
+                  /\ CTotal(c) > 0 => Reduce(<<CDiff(Scaled(c, k)), CTotal(Scaled(c, k))>>) = P(aln, i, j)
 
 (* the domain classification does not depend on the order of the pair, and agrees with JCDefined *)
 ClassesSymmetric == \A i, j \in Seqs : i < j =>
